@@ -141,6 +141,18 @@ impl Check for C02 {
     fn chunk_size(&self, _ctx: &Ctx) -> u64 {
         300
     }
+    fn death_signature(&self, _ctx: &Ctx, _idx: u64, how: &str) -> Option<String> {
+        // The forced branch schedules make loops run that the program bounds (the schedule overrides the condition):
+        // a body that doubles a string or nests an array in itself then grows exponentially, and one print or one
+        // concatenation takes minutes or all the memory the worker may have. Termination and memory use are not
+        // what this property is about (termination under natural execution is C05's): such a case is counted as
+        // not judged. Every other way a worker can die (signal, abort, panic in a destructor) is a finding.
+        if how.starts_with("hang") || how.starts_with("abort:alloc") {
+            None
+        } else {
+            Some(format!("worker-death:{}", how))
+        }
+    }
     fn describe_case(&mut self, ctx: &Ctx, idx: u64) -> String {
         self.text(ctx, idx).1
     }
